@@ -32,7 +32,7 @@ func init() {
 				{Name: "truncation-witness", Spec: mk([]int64{33300, 17200}, false, true, false, 3), Depth: 5, ShardDepth: 1},
 				{Name: "ratio-1-2-3", Spec: mk([]int64{10000, 20000, 30000}, false, true, false, 3), Depth: 5, ShardDepth: 2},
 				{Name: "signer-binding", Custom: signerBinding, Shards: 1},
-				{Name: "rebond-life-cycle", Spec: &vote.Spec{Prop: "C02", Chain: "eth", Stakes: []int64{10000, 10000, 10000, 10000}, Variants: []string{"A"}, MaxNonce: 3, Rebond: true}, Depth: 8, ShardDepth: 2},
+				{Name: "rebond-life-cycle", Spec: &vote.Spec{Prop: "C02", Chain: "eth", Stakes: []int64{10000, 10000, 10000, 10000}, Variants: []string{"A"}, MaxNonce: 3, Rebond: true}, Depth: 9, ShardDepth: 2},
 			}
 			// the chain is restarted from its exported genesis at any point of a history of votes and membership changes
 			rs := mk([]int64{10000, 10000, 10000}, true, true, false, 3)
